@@ -612,8 +612,9 @@ func (c *VirtualTable) Insert(ctx context.Context, values map[int]interface{}) (
 		new.ColumnValues[colName] = &v1proto.ColumnValue{Value: toSQLiteValue(v)}
 		dbg("SET %d %v=%v\n", i, key, v)
 	}
-	merged := MergeRows(key, ot, old, t, &new, t)
-	err = c.Tree.Root.Set(ctx, t, NewKey(key), merged)
+	mt := laterOf(ot, t)
+	merged := MergeRows(key, ot, old, t, &new, mt)
+	err = c.Tree.Root.Set(ctx, mt, NewKey(key), merged)
 	if err != nil {
 		return 0, fmt.Errorf("set: %w", err)
 	}
@@ -664,8 +665,9 @@ func (c *VirtualTable) Update(ctx context.Context, key interface{}, values map[i
 	// the INSERT that did, or the update would count as a newer INSERT
 	// and beat a concurrent DELETE
 	new.DeleteUpdateOffset = durationpb.New(ot.Add(old.DeleteUpdateOffset.AsDuration()).Sub(t))
-	merged := MergeRows(key, ot, old, t, &new, t)
-	err = c.Tree.Root.Set(ctx, t, NewKey(key), merged)
+	mt := laterOf(ot, t)
+	merged := MergeRows(key, ot, old, t, &new, mt)
+	err = c.Tree.Root.Set(ctx, mt, NewKey(key), merged)
 	if err != nil {
 		return fmt.Errorf("set: %w", err)
 	}
@@ -684,12 +686,26 @@ func (c *VirtualTable) Delete(ctx context.Context, key interface{}) error {
 	}
 	t := updateTime(ctx)
 	new.Deleted = true
-	merged := MergeRows(key, ot, old, t, &new, t)
-	err = c.Tree.Root.Set(ctx, t, NewKey(key), merged)
+	mt := laterOf(ot, t)
+	merged := MergeRows(key, ot, old, t, &new, mt)
+	err = c.Tree.Root.Set(ctx, mt, NewKey(key), merged)
 	if err != nil {
 		return fmt.Errorf("set: %w", err)
 	}
 	return nil
+}
+
+// laterOf returns the later of the stored entry's time and the write time.
+// The tree keeps, per key, only the entry with the latest time, so a row
+// written with an older write time must keep the entry's time or the
+// whole write is discarded, although some of its columns (or its delete)
+// may be newer than what is stored; the per-column and status times
+// inside the row decide what wins.
+func laterOf(entryTime, writeTime time.Time) time.Time {
+	if entryTime.After(writeTime) {
+		return entryTime
+	}
+	return writeTime
 }
 
 // REMOVE var maxTime = time.Unix(1<<63-62135596801, 999999999)
